@@ -333,20 +333,34 @@ func ruleTB9b() Rule {
 					continue
 				}
 				info := f.Info()
-				// parameters: (yylex, l, op, r)
-				var params []*types.Var
+				// parameters by type: the two operands are the parameters of the expression
+				// type, in that order; the operator is the string (whatever else is handed in:
+				// the yyLexer, a receiver)
+				var left, right, opv *types.Var
 				for _, fld := range f.Type.Params.List {
 					for _, nm := range fld.Names {
-						if v, ok := info.Defs[nm].(*types.Var); ok {
-							params = append(params, v)
+						v, ok := info.Defs[nm].(*types.Var)
+						if !ok {
+							continue
+						}
+						if b, isBasic := v.Type().Underlying().(*types.Basic); isBasic && b.Kind() == types.String && opv == nil {
+							opv = v
+						}
+						if _, isStruct := v.Type().Underlying().(*types.Struct); isStruct {
+							if left == nil {
+								left = v
+							} else if right == nil {
+								right = v
+							}
 						}
 					}
 				}
-				if len(params) != 4 {
-					rr.Unk(f, f.Name+"|params", f.Pos(), "expected parameters (yylex, l, op, r)")
+				if left == nil || right == nil || opv == nil {
+					rr.Unk(f, f.Name+"|params", f.Pos(), "expected two operand parameters of the expression type and a string operator")
 					continue
 				}
-				// locals bound by `x, ok := expand(yylex, P)`
+				// locals bound by `x, ok := expand(…, P)` (function or method form)
+				expandFn := c.fn("interp.expand")
 				from := map[types.Object]*types.Var{}
 				f.OwnNodes(func(n ast.Node) bool {
 					as, ok := n.(*ast.AssignStmt)
@@ -354,21 +368,40 @@ func ruleTB9b() Rule {
 						return true
 					}
 					call, ok := as.Rhs[0].(*ast.CallExpr)
-					if !ok || len(call.Args) != 2 || !strings.HasSuffix(calleeName(info, call), "interp.expand") {
+					if !ok {
 						return true
 					}
-					if aid, ok := call.Args[1].(*ast.Ident); ok {
-						if pv, ok := info.Uses[aid].(*types.Var); ok {
-							if lid, ok := as.Lhs[0].(*ast.Ident); ok {
-								from[info.Defs[lid]] = pv
+					fo := core.StaticCallee(info, call)
+					if fo == nil || expandFn == nil || c.effective(c.P.FuncOf(fo)) != c.effective(expandFn) {
+						return true
+					}
+					for _, a := range call.Args {
+						if aid, ok := ast.Unparen(a).(*ast.Ident); ok {
+							if pv, ok := info.Uses[aid].(*types.Var); ok && (pv == left || pv == right) {
+								if lid, ok := as.Lhs[0].(*ast.Ident); ok {
+									from[info.Defs[lid]] = pv
+								}
 							}
 						}
 					}
 					return true
 				})
+				judge := func(key, s string, be *ast.BinaryExpr, xFrom, yFrom *types.Var, at token.Pos, xt types.Type) {
+					switch {
+					case be.Op != goOpFor[s]:
+						rr.Bad(f, key, at, fmt.Sprintf("operator %q is computed with Go's %s", s, be.Op))
+					case xFrom != left || yFrom != right:
+						rr.Bad(f, key, at, fmt.Sprintf("operator %q is not applied to (left, right) in that order: %s", s, exprStr(be)))
+					case !isSignedInt(xt):
+						rr.Bad(f, key, at, "the left operand is not a signed integer: >> and / would not be arithmetic")
+					default:
+						rr.OK(f, key, at, "equal", exprStr(be))
+					}
+				}
 				seen := map[string]bool{}
 				for _, sw := range switches(c.P, f) {
-					if sw.tag != "op" {
+					tid, isID := ast.Unparen(sw.sw.Tag).(*ast.Ident)
+					if sw.sw.Tag == nil || !isID || info.Uses[tid] != types.Object(opv) {
 						continue
 					}
 					for _, cl := range sw.clauses {
@@ -390,19 +423,112 @@ func ruleTB9b() Rule {
 							}
 							xid, xok := ast.Unparen(be.X).(*ast.Ident)
 							yid, yok := ast.Unparen(be.Y).(*ast.Ident)
-							switch {
-							case be.Op != goOpFor[s]:
-								rr.Bad(f, key, be.Pos(), fmt.Sprintf("operator %q is computed with Go's %s", s, be.Op))
-							case !xok || !yok || from[info.Uses[xid]] != params[1] || from[info.Uses[yid]] != params[3]:
-								rr.Bad(f, key, be.Pos(), fmt.Sprintf("operator %q is not applied to (left, right) in that order: %s", s, exprStr(be)))
-							case !isSignedInt(info.Types[be.X].Type):
-								rr.Bad(f, key, be.Pos(), "the left operand is not a signed integer: >> and / would not be arithmetic")
-							default:
-								rr.OK(f, key, be.Pos(), "equal", exprStr(be))
+							var xf, yf *types.Var
+							if xok && yok {
+								xf, yf = from[info.Uses[xid]], from[info.Uses[yid]]
 							}
+							judge(key, s, be, xf, yf, be.Pos(), info.Types[be.X].Type)
 						}
 					}
 				}
+				// the same as a table: `fn := table[op]; … fn(l, r)` with table a constant map from
+				// the operator to `func(a, b T) U { return a OP b }`
+				f.OwnNodes(func(n ast.Node) bool {
+					ix, ok := n.(*ast.IndexExpr)
+					if !ok {
+						return true
+					}
+					kid, isID := ast.Unparen(ix.Index).(*ast.Ident)
+					tid, isTID := ast.Unparen(ix.X).(*ast.Ident)
+					if !isID || !isTID || info.Uses[kid] != types.Object(opv) {
+						return true
+					}
+					tv, isVar := info.Uses[tid].(*types.Var)
+					if !isVar || tv.Parent() != tv.Pkg().Scope() || !c.constantGlobal(tv) {
+						return true
+					}
+					lit := c.globalLiteral("interp", tv)
+					if lit == nil {
+						return true
+					}
+					// the call of the looked-up function: which operands it is handed, in which order
+					var fnObj types.Object
+					if as, isAs := c.P.Parent(ix).(*ast.AssignStmt); isAs && len(as.Lhs) >= 1 {
+						if id, ok := as.Lhs[0].(*ast.Ident); ok {
+							fnObj = info.Defs[id]
+							if fnObj == nil {
+								fnObj = info.Uses[id]
+							}
+						}
+					}
+					var a0, a1 *types.Var
+					f.OwnNodes(func(m ast.Node) bool {
+						call, ok := m.(*ast.CallExpr)
+						if !ok || len(call.Args) != 2 {
+							return true
+						}
+						direct := ast.Unparen(call.Fun) == ast.Expr(ix)
+						id, isID := ast.Unparen(call.Fun).(*ast.Ident)
+						if !direct && !(isID && fnObj != nil && info.Uses[id] == fnObj) {
+							return true
+						}
+						x0, ok0 := ast.Unparen(call.Args[0]).(*ast.Ident)
+						x1, ok1 := ast.Unparen(call.Args[1]).(*ast.Ident)
+						if ok0 && ok1 {
+							a0, a1 = from[info.Uses[x0]], from[info.Uses[x1]]
+						}
+						return true
+					})
+					for _, el := range lit.Elts {
+						kv, ok := el.(*ast.KeyValueExpr)
+						if !ok {
+							continue
+						}
+						s, isStr := constStr(info, kv.Key)
+						fl, isFn := ast.Unparen(kv.Value).(*ast.FuncLit)
+						if !isStr || !isFn {
+							continue
+						}
+						seen[s] = true
+						key := f.Name + "|case " + s
+						var pnames []types.Object
+						for _, fld := range fl.Type.Params.List {
+							for _, nm := range fld.Names {
+								pnames = append(pnames, info.Defs[nm])
+							}
+						}
+						var be *ast.BinaryExpr
+						if len(fl.Body.List) == 1 {
+							if ret, ok := fl.Body.List[0].(*ast.ReturnStmt); ok && len(ret.Results) == 1 {
+								be, _ = ast.Unparen(ret.Results[0]).(*ast.BinaryExpr)
+							}
+						}
+						if be == nil || len(pnames) != 2 {
+							rr.Unk(f, key, kv.Pos(), "the table entry is not `func(a, b) { return a OP b }`")
+							continue
+						}
+						xid, xok := ast.Unparen(be.X).(*ast.Ident)
+						yid, yok := ast.Unparen(be.Y).(*ast.Ident)
+						var xf, yf *types.Var
+						if xok && yok {
+							// position of the literal's parameter decides which operand it receives
+							for i, pn := range pnames {
+								arg := a0
+								if i == 1 {
+									arg = a1
+								}
+								if info.Uses[xid] == pn {
+									xf = arg
+								}
+								if info.Uses[yid] == pn {
+									yf = arg
+								}
+							}
+						}
+						judge(key, s, be, xf, yf, be.Pos(), info.Types[be.X].Type)
+					}
+					return true
+				})
 				for _, s := range spec.ops {
 					if !seen[s] {
 						rr.Bad(f, f.Name+"|case "+s, f.Pos(), fmt.Sprintf("no case for operator %q", s))
